@@ -116,6 +116,8 @@ MUTATIONS = [
      ("        points.push(Point::new(advance_width as f64, 0.0)); // rightSideX, 0", "        points.push(Point::new(self.width, 0.0)); // rightSideX, 0"), r"c19_phantom_points_carry_the_rounded_advance"),
     ("positional_diagnostic_one_byte_range_again", "C13", "fea-rs/src/parse/parser.rs",
      ("        pos..pos + len\n", "        pos..pos + 1 + len - len\n"), r"c13_positional_diagnostics_lie_inside_the_source"),
+    ("design_to_normalized_uses_the_wrong_map", "C08", "fontdrasil/src/coords.rs",
+     ("        Coord::new(converter.design_to_normalized.map(coord.coord))", "        Coord::new(converter.design_to_user.map(coord.coord))"), r"c08_converter_sends_nodes_to_minus1_0_plus1_3"),
     ("rank_shift_carry_into_bit_62", "C16", "fontir/src/feature_variations.rs",
      ("            *val |= carry_bit << 63;", "            *val |= carry_bit << 62;"), r"c16_rank_shift_"),
     ("rank_bitor_assign_front_aligned", "C16", "fontir/src/feature_variations.rs",
